@@ -205,6 +205,25 @@ Definition v2_addresses (family : N) (d : bytes) : option (ipaddr * N * ipaddr *
     end
   else None.                                            (* Must(false) *)
 
+(* the part of Two::Parse after the fixed fields and the 16-bit-length-prefixed block (raw) are extracted *)
+Definition v2_finish (command family proto : N) (raw : bytes) : outcome :=
+  let size := 1 + 1 + (2 + lenN raw) in                 (* tokHeader.parsed() *)
+  let h := header_new true command in
+  if (proto =? pp_tpUnspecified) || (family =? pp_afUnspecified) then Ok (header_ignore h) size
+  else
+    match v2_addresses family raw with
+    | None => Reject E_must
+    | Some (s, sp, d, dp, lo) =>
+      let h1 := header_set_addrs h s sp d dp in
+      if has_forwarded_addresses h1 then
+        match parse_tlvs lo with
+        | TOk t => Ok (header_set_tlvs h1 t) size
+        | TFail => Reject E_must
+        | TFuel => Reject E_fuel
+        end
+      else Ok h1 size
+    end.
+
 (* Two::Parse(buf): buf is what follows the magic; the size counts from there *)
 Definition v2_parse (buf : bytes) : outcome :=
   match bt_uint8 true buf with
@@ -226,23 +245,7 @@ Definition v2_parse (buf : bytes) : outcome :=
       match bt_pstring16 true r2 with
       | BMore => More
       | BFail => Reject E_must
-      | BOk raw _ =>
-        let size := 1 + 1 + (2 + lenN raw) in           (* tokHeader.parsed() *)
-        let h := header_new true command in
-        if (proto =? pp_tpUnspecified) || (family =? pp_afUnspecified) then Ok (header_ignore h) size
-        else
-          match v2_addresses family raw with
-          | None => Reject E_must
-          | Some (s, sp, d, dp, lo) =>
-            let h1 := header_set_addrs h s sp d dp in
-            if has_forwarded_addresses h1 then
-              match parse_tlvs lo with
-              | TOk t => Ok (header_set_tlvs h1 t) size
-              | TFail => Reject E_must
-              | TFuel => Reject E_fuel
-              end
-            else Ok h1 size
-          end
+      | BOk raw _ => v2_finish command family proto raw
       end
     end
   end.
